@@ -24,6 +24,29 @@ CLAIMED = {
                      "value or fails and changes nothing; isolate leaves every list = old list filtered of the node; no panic, position loops terminate within their fuel. "
                      "Handle independence and absence of self-deadlock rest on the correspondence (all four flavours, watchdog/lock probe).",
                 tech="Coq proof: refinement of each operation to its contract + differential correspondence on all four flavours", ref="DESIGN.md §5 C03"),
+    "C04": dict(text="Theorems (coq/props/C04.v) about the worklist machine with the FIFO queue, for every heap with valid ids and distinct keys, every direction "
+                     "(plain, transpose(), undirected), every root/target and every pure filter: returned path is a chain of accepted stored edges from the root to the "
+                     "target (sound), None only if the target is unreachable through accepted edges (complete), no accepted path is shorter (shortest), search() agrees with "
+                     "search_path(), fuel_bound suffices, no panic. Tied to the four flavours by exhaustive small multigraphs x all options and seeded random graphs.",
+                tech="Coq proof: loop invariants of the worklist machine, BFS level argument, backtrack correctness + differential correspondence", ref="DESIGN.md §5 C04"),
+    "C05": dict(text="Theorems (coq/props/C05.v) about the recursive machine: dfs search_path is sound (chain of accepted stored edges root->target, no node twice), "
+                     "complete, agrees with search(), terminates within fuel_bound, never panics; any direction, any pure filter.",
+                tech="Coq proof: big-step Run relation for `descend`, invariants by induction + differential correspondence", ref="DESIGN.md §5 C05"),
+    "C07": dict(text="Theorems (coq/props/C07.v): for bfs/pfs/dfs/preorder/postorder without target the recording closure is handed exactly the adjacency entries of the "
+                     "reachable nodes, each once (Permutation of the trace), with true endpoints and values; with a pure filter only accepted edges are recorded and the "
+                     "visited set is exactly the set reachable through accepted edges.",
+                tech="Coq proof: trace = concatenation of the expanded nodes' adjacency lists, by machine invariants + differential correspondence (exact closure traces)", ref="DESIGN.md §5 C07"),
+    "C08": dict(text="Theorems (coq/props/C08.v): simulation — every machine reads the heap only through the node table and the adjacency function of its direction, hence a "
+                     "search/cycle search/ordering with transpose() equals the same call on the edge-reversed heap (result, recorded edges, closure trace), and without "
+                     "transpose() the result is independent of the incoming tables; for all kinds, entry points, targets and pure callbacks.",
+                tech="Coq proof: state simulation by induction on fuel + differential correspondence incl. explicit reversed graphs", ref="DESIGN.md §5 C08"),
+    "C09": dict(text="Theorems (coq/props/C09.v): search_cycle (bfs, pfs-min/max, dfs; any direction) returns a non-empty chain of accepted stored edges from the root back to "
+                     "the root with pairwise distinct targets, returns None only if no such closed path exists, the bfs cycle is shortest, and backtracking never panics.",
+                tech="Coq proof: cycle mode = path mode with the root unvisited; RootLast + backtrack correctness + differential correspondence", ref="DESIGN.md §5 C09"),
+    "C10": dict(text="Theorems (coq/props/C10.v): preorder/postorder search_edges/search_nodes are the discovery/finishing order of one depth-first traversal in the sense of "
+                     "the inductive relation DfsKids (nondeterministic in successor order), visit exactly the reachable set once, root first/last, one accepted edge entering "
+                     "each reachable non-root node; post_edge_order: for an edge u->v, v finishes before u unless u is reachable from v.",
+                tech="Coq proof: refinement of `descend` to the DfsKids relation + differential correspondence with an exact some-DFS-produces-this oracle on small graphs", ref="DESIGN.md §5 C10"),
 }
 
 PENDING = {
